@@ -124,6 +124,11 @@ def neighbours(prog):
                         q["inputs"][n_] = copy.deepcopy(dcl)
                 q["tag"] = prog["tag"] + "~" + axis
                 out.append((axis, q))
+    # the same term added once more (a form is a *sum* of its terms: the multiplicity matters)
+    q = copy.deepcopy(prog)
+    q["terms"] = q["terms"] + [copy.deepcopy(q["terms"][0])]
+    q["tag"] = prog["tag"] + "~term-multiplicity"
+    out.append(("term-multiplicity", q))
     # declaration-level mutations
     for name, dcl in prog.get("inputs", {}).items():
         q = copy.deepcopy(prog)
@@ -313,6 +318,76 @@ def sequence_problems(case):
     return nseq, probs
 
 
+def extend_problems(case):
+    """A form object whose hash() was taken while it was still under construction and which then received another
+    term: either the API refuses the modification (RuntimeError), or the finished form must be served its own
+    assembler -- before and after a request for the shorter form in the same process."""
+    from pyiga import compile as C
+    prog, od = case["prog"], case["on_demand"]
+    ext = copy.deepcopy(prog)
+    ext["terms"] = ext["terms"] + [copy.deepcopy(ext["terms"][0])]
+    k1, s1 = key_and_source(prog, od)
+    k2, s2 = key_and_source(ext, od)
+    if k1 is None or k2 is None or same_assembler(s1, s2):
+        return 0, []
+    cache = C.__dict__["__vform_asm_cache"]
+    snapshot = dict(cache)
+    real_compile, real_generate = C.compile_cython_module, C.generate
+    current = {"i": None}
+
+    def gen(vf, classname="CustomAssembler", on_demand=False):
+        real_generate(vf, classname, on_demand=on_demand)
+        return "FORM %d" % current["i"]
+
+    nterms = len(prog["terms"])
+
+    def hook(vf, i):
+        if i == nterms - 1:
+            vf.hash()               # the form is, at this moment, exactly `prog`
+
+    C.compile_cython_module = lambda src, verbose=False: _StubModule(src)
+    C.generate = gen
+    probs, n = [], 0
+    sems = {1: s1, 2: s2}
+    try:
+        for order in ("short-first", "extended-first", "extended-only"):
+            cache.clear()
+            cache.update(snapshot)
+            n += 1
+            served = []
+            steps = {"short-first": (1, 2), "extended-first": (2, 1), "extended-only": (2,)}[order]
+            refused = False
+            for which in steps:
+                current["i"] = which
+                if which == 1:
+                    vf = vgen.build_vform(prog)
+                else:
+                    try:
+                        vf = vgen.build_vform(ext, after_term=hook)
+                    except RuntimeError:
+                        refused = True      # modification after hash() refused: nothing to request
+                        continue
+                asm = C.compile_vform(vf, on_demand=od)
+                got = getattr(asm, "src", None)
+                if got is None:
+                    probs.append(("cache:hash-then-add", "%s (%s): the form extended after hash() was served the predefined class %s"
+                                  % (prog["tag"], order, getattr(asm, "__name__", asm))))
+                    break
+                j = int(got.split()[1])
+                if j != which:
+                    probs.append(("cache:hash-then-add", "%s (%s): a form whose hash() was taken before its last term was added: the request for the "
+                                  "%s form was served the assembler generated for the %s form"
+                                  % (prog["tag"], order, "extended" if which == 2 else "short", "extended" if j == 2 else "short")))
+                    break
+            if probs:
+                break
+    finally:
+        C.compile_cython_module, C.generate = real_compile, real_generate
+        cache.clear()
+        cache.update(snapshot)
+    return n, probs
+
+
 # ---------------------------------------------------------------------------------------------------
 # freshness of the shipped generated files
 # ---------------------------------------------------------------------------------------------------
@@ -405,6 +480,8 @@ def check_case(case):
         return out
     if part == "seq":
         return sequence_problems(case)[1]
+    if part == "extend":
+        return extend_problems(case)[1]
     if part == "fresh":
         return [p for p in freshness_problems(case) if p[0] != "__info__"]
     if part == "predefined":
@@ -414,6 +491,10 @@ def check_case(case):
 
 def _seq_worker(case):
     return sequence_problems(case)
+
+
+def _ext_worker(case):
+    return extend_problems(case)
 
 
 def _fresh_worker(case):
@@ -468,6 +549,14 @@ def run(ctx):
         out.traces += nseq
         out.transitions += nseq
         out.part("sequences", neighbourhoods=1, sequences=nseq)
+        for key, msg in probs:
+            out.add_violation(key, msg, case)
+    ecases = [{"part": "extend", "prog": b, "on_demand": od} for k, b in enumerate(bases) for od in (False, True)
+              if ctx.tier == "thorough" or k % 2 == 0]
+    for case, (n, probs) in zip(ecases, par.pmap(_ext_worker, ecases, min_parallel=8)):
+        out.traces += n
+        out.transitions += n
+        out.part("hash-then-add", forms=1, sequences=n)
         for key, msg in probs:
             out.add_violation(key, msg, case)
     ctx.log("request sequences=%d" % out.traces)
